@@ -52,11 +52,28 @@ void harness(void)
     }
 #elif FAM == 5
     {
+#ifndef MALG
+#define MALG 0
+#endif
+#if MALG == 2
+        ascon_masked_key_160_t mk; unsigned i, k;
+        for (i = 0; i < 6; ++i) for (k = 0; k < 4; ++k) mk.k[i].S[k] = nondet_u64();
+#define M_ENC ascon80pq_masked_aead_encrypt
+#define M_DEC ascon80pq_masked_aead_decrypt
+#else
         ascon_masked_key_128_t mk; unsigned i, k;
         for (i = 0; i < 2; ++i) for (k = 0; k < 4; ++k) mk.k[i].S[k] = nondet_u64();
+#if MALG == 1
+#define M_ENC ascon128a_masked_aead_encrypt
+#define M_DEC ascon128a_masked_aead_decrypt
+#else
+#define M_ENC ascon128_masked_aead_encrypt
+#define M_DEC ascon128_masked_aead_decrypt
+#endif
+#endif
         { unsigned char mk_0[sizeof(mk)]; memcpy(mk_0, &mk, sizeof(mk));
-          ascon128_masked_aead_encrypt(c, &l1, m, ML, ad, AL, npub, &mk);
-          { SNAP(c); ascon128_masked_aead_decrypt(p, &l2, c, ML + 16, ad, AL, npub, &mk); ok &= SAME(c); }
+          M_ENC(c, &l1, m, ML, ad, AL, npub, (const void *)&mk);
+          { SNAP(c); M_DEC(p, &l2, c, ML + 16, ad, AL, npub, (const void *)&mk); ok &= SAME(c); }
           CHECK(vh_eq_bytes((const unsigned char *)&mk, mk_0, sizeof(mk)), "shared masked key is never stored to"); }
     }
 #elif FAM == 6
